@@ -534,3 +534,54 @@ void *mmap64(void *addr, size_t len, int prot, int flags, int fd, off64_t off) {
   errno = err;
   return r;
 }
+
+// ---------------------------------------------------------------- accept faults
+// Self-contained (no callback): the next `n` calls of accept/accept4 in this process fail with
+// `err` without touching the kernel, so the pending connection stays in the listen backlog -
+// what a listener sees when the process is out of descriptors (EMFILE/ENFILE) or memory
+// (ENOBUFS/ENOMEM), or when the kernel reports a connection that went away (ECONNABORTED).
+#include <sys/socket.h>
+static volatile int g_accept_fail = 0;
+static volatile int g_accept_err = 0;
+static volatile int g_accept_fired = 0;
+
+__attribute__((visibility("default"))) void vshim_accept_arm(int n, int err) {
+  g_accept_err = err;
+  g_accept_fired = 0;
+  __sync_synchronize();
+  g_accept_fail = n;
+}
+// returns the number of accepts that failed since the last arm and disarms
+__attribute__((visibility("default"))) int vshim_accept_disarm(void) {
+  g_accept_fail = 0;
+  __sync_synchronize();
+  return __sync_lock_test_and_set(&g_accept_fired, 0);
+}
+static int accept_fault(void) {
+  for (;;) {
+    int cur = g_accept_fail;
+    if (cur <= 0) return 0;
+    if (__sync_bool_compare_and_swap(&g_accept_fail, cur, cur - 1)) {
+      __sync_fetch_and_add(&g_accept_fired, 1);
+      return g_accept_err;
+    }
+  }
+}
+int accept4(int fd, struct sockaddr *addr, socklen_t *len, int flags) {
+  REAL(accept4);
+  int err = accept_fault();
+  if (err) {
+    errno = err;
+    return -1;
+  }
+  return real(fd, addr, len, flags);
+}
+int accept(int fd, struct sockaddr *addr, socklen_t *len) {
+  REAL(accept);
+  int err = accept_fault();
+  if (err) {
+    errno = err;
+    return -1;
+  }
+  return real(fd, addr, len);
+}
